@@ -666,6 +666,15 @@ pub fn run(tier: Tier) -> i32 {
                 }
             }
         }
+        // values at the ends of the range: an argument is pasted as it was written, whatever it
+        // would evaluate to (a rendering that computes and re-reads it has no literal for -2^63)
+        for a in ["1<<63", "0-0x7FFFFFFFFFFFFFFF-1", "-9223372036854775807-1", "0x7FFFFFFFFFFFFFFF", "(1<<63)|1", "~0", "1<<62", "(1<<62)+(1<<62)-1", "0-1", "-(-(5))", "1<<63>>63", "(1<<63)/-2", "0x8000000000000000>>1", "~(1<<63)", "-1<<63", "(1<<63)+0", "3*(1<<61)", "'a'-'b'"] {
+            if let Some(e) = crate::exprm::parse(a) {
+                if matches!(eval(&e), Val::Value(_)) {
+                    args.push(a.to_string());
+                }
+            }
+        }
         args.sort();
         args.dedup();
         n_groupings = args.len();
